@@ -46,6 +46,10 @@ for g, nm in (("validators", "v"), ("cond", "c"), ("unless", "u"), ("before", "b
 for g, nm in (("cond", "c"), ("before", "b"), ("on", "o"), ("enter", "e")):
     SLOTS.append((g, "callable", "fn", "f" + nm + "#2"))
 
+# two decorator-registered callbacks that share one function name (`def _(self)` twice)
+SLOTS.append(("before", "decorator", "dec", "dup"))
+SLOTS.append(("after", "decorator", "dec", "dup#2"))
+
 KINDS = [(k, ev) for k in ("external", "self", "internal") for ev in ("e1", "e2")] + \
         [("rejected-first", "e1"), ("initial", None)]
 ENGINES = ("sync-rtc", "sync-nonrtc", "async-all", "async-first", "async-wrapped")
@@ -203,7 +207,13 @@ def worker(block):
                     res.stats["callbacks_compared"] += p.impl.env.seq // 2
                 res.hist[f"{kind}/{mask}"] += 1
                 if msg:
-                    res.violation({"category": _cat(msg), "kind": kind, "mask": mask},
+                    cat = _cat(msg)
+                    names = {SLOTS[i][3] for i in pop}
+                    if {"dup", "dup#2"} <= names and "missing 1 required positional argument: " \
+                            "'self'" in msg:
+                        # root cause known on the pinned tree (see known_findings.json)
+                        cat = "decorated-callbacks-sharing-a-function-name"
+                    res.violation({"category": cat, "kind": kind, "mask": mask},
                                   {"pop": [list(SLOTS[i]) for i in pop], "pop_idx": list(pop),
                                    "kind": kind, "event": ev, "mask": mask}, msg)
                 elif len(res.samples) < 1 and len(pop) == 2:
